@@ -394,7 +394,8 @@ def step (env : Env) (lenient : Bool) (st : LState) (s : Str) : Except Exc (LSta
       let literal := joinWith ['\n'] middle
       let contentLine := st.line + 1
       let closeLine := contentLine + (ls.length - 1 - 1)
-      let t1 : Token := { type := .fenceOpen, value := .fence sp.marker sp.tag, line := st.line, col := st.col }
+      let fenceIndent := ((ls.headD []).takeWhile (· == ' ')).length
+      let t1 : Token := { type := .fenceOpen, value := .fence sp.marker sp.tag, line := st.line, col := st.col + fenceIndent }
       let t2 : Token := { type := .literalContent, value := .str literal, line := contentLine, col := 1 }
       let t3 : Token := { type := .fenceClose, value := .str sp.marker, line := closeLine, col := 1 }
       let st1 := { st with pos := sp.stop, prev := spanText.getLast?.orElse (fun _ => st.prev), line := closeLine + 1, col := 1,
